@@ -54,6 +54,10 @@ type c06Case struct {
 
 func c06Build(c *choice.Stream) *c06Case {
 	cs := &c06Case{desc: map[string]any{}}
+	// valid streams may use LowCardinality keys wider than the dictionary needs
+	refproto.LCKeyWidth = c.Pick("lckeys", 0, 0, 1, 2, 3)
+	defer func() { refproto.LCKeyWidth = 0 }()
+	cs.desc["lc_key_width"] = refproto.LCKeyWidth
 	rev := proto.Version
 	if c.Bool("rev.old", 1, 4) {
 		rev = revMenu()[c.Draw("rev", len(revMenu()))]
@@ -169,7 +173,7 @@ func c06Build(c *choice.Stream) *c06Case {
 			dec = func(rd *proto.Reader) error { var m proto.ServerHello; return m.DecodeAware(rd, rev) }
 		case "query":
 			q := proto.Query{ID: drawText(c, "id"), Body: drawText(c, "body"), Secret: "s", Stage: proto.StageComplete, Compression: proto.CompressionEnabled,
-				Info: proto.ClientInfo{ProtocolVersion: rev, Major: 1, Minor: 2, Patch: 3, Interface: proto.InterfaceTCP, Query: proto.ClientQueryInitial, InitialUser: "u", InitialQueryID: "q", InitialAddress: "1.2.3.4:5", ClientName: "x", QuotaKey: "k"},
+				Info:     proto.ClientInfo{ProtocolVersion: rev, Major: 1, Minor: 2, Patch: 3, Interface: proto.InterfaceTCP, Query: proto.ClientQueryInitial, InitialUser: "u", InitialQueryID: "q", InitialAddress: "1.2.3.4:5", ClientName: "x", QuotaKey: "k"},
 				Settings: []proto.Setting{{Key: "a", Value: "1", Important: true}}, Parameters: []proto.Parameter{{Key: "p", Value: "v"}}}
 			q.EncodeAware(&buf, rev)
 			skip = 1
